@@ -15,6 +15,8 @@ def main():
     ap.add_argument("--only", default=None, help="comma-separated case-name substrings (development aid)")
     a = ap.parse_args()
     seed = int(os.environ.get("VERIF_SEED", "0") or 0)
+    if a.only:
+        os.environ["SYMOAS_PARTIAL_RUN"] = "1"
     warnings.filterwarnings("ignore")
     sys.setrecursionlimit(20000)
     from symoas import solve
